@@ -45,7 +45,7 @@ class WorldC05(World):
     PROBES = ('overwrite-smaller', 'overwrite-larger', 'write-after-failed-write', 'read-of-torn-file',
               'read-absent', 'two-digit-count', 'three-digit-count', 'four-elements', 'name-15-chars',
               'name-starts-with-digit', 'zero-count-entry', 'dict-input', 'tuple-read', 'dict-read', 'crlf-newline',
-              'supp-data', 'supp-txt', 'supp-record-shares-a-name', 'second-generation', 'no-date', 'extreme-coefficients', 'zero-coefficient', '>=50-species',
+              'supp-data', 'supp-txt', 'supp-record-shares-a-name', 'second-generation', 'rewrite-after-in-place-edit', 'no-date', 'extreme-coefficients', 'zero-coefficient', '>=50-species',
               'clock-jump-before-write', 'fault-did-not-fire', 'comment-with-keyword', 'two-letter-three-digit', 'recovery-after-fault')
     REAL = ('pmutt.io.thermdat.write_thermdat / read_thermdat and helpers', 'pmutt.empirical.nasa.Nasa')
     SIMULATED = ('disk: SimFS shim over a scratch directory (open/write/close errors, ENOSPC after k chars, crash at '
@@ -62,7 +62,7 @@ class WorldC05(World):
     MAX_STEPS = 50
 
     # ------------------------------------------------------------------ gen
-    def gen_swarm(self, rng, tier):
+    def _gen_swarm0(self, rng, tier):
         return {
             'n_clients': rng.randint(1, 3),
             'paths': ['f%d.dat' % i for i in range(rng.randint(1, 4))],
@@ -76,6 +76,12 @@ class WorldC05(World):
             'enum': tier == 'thorough' and rng.random() < 0.25,
         }
 
+    def gen_swarm(self, rng, tier):
+        sw = self._gen_swarm0(rng, tier)
+        sw['upper_symbols'] = rng.random() < 0.25
+        sw['w_reuse'] = rng.choice([0.0, 0.0, 0.3, 0.6])
+        return sw
+
     def n_steps(self, rng, swarm):
         return rng.randint(4, 24) if swarm['max_species'] <= 12 else rng.randint(3, 8)
 
@@ -88,6 +94,8 @@ class WorldC05(World):
         self.ref = {}        # path -> ('ok', [species dicts], meta) | ('undefined',)
         self.failed_last = set()
         self.history = []    # (step, path, 'ack'|'fail')
+        self.last = None     # (descriptors, live Nasa objects) of the most recent write call
+        self._live = None
 
     def teardown(self):
         try:
@@ -136,6 +144,8 @@ class WorldC05(World):
         used.add(name)
         n_el = rng.randint(1, 4)
         syms = rng.sample(SYMBOLS, n_el + rng.choice([0, 0, 1]))
+        if sw.get('upper_symbols'):
+            syms = [x.upper() for x in syms]         # Chemkin's own convention: AR, PT, CL
         els = []
         for i, s in enumerate(syms):
             if i >= n_el:
@@ -208,8 +218,13 @@ class WorldC05(World):
             # bias: a fault right after an overwrite/failed write is more interesting
             if kind == 'write' and wf and fault is None and path in self.failed_last and rng.random() < sw['fault_rate']:
                 fault = self._fault(rng, wf)
+            reuse = None
+            if self.last is not None and rng.random() < sw.get('w_reuse', 0.0):
+                # the caller keeps its species objects, adjusts enthalpies in place (a_low[5] += dH/R) and writes again
+                m = len(self.last[0])
+                reuse = [[rng.randrange(m), round(rng.uniform(-5000, 5000), 2)] for _ in range(rng.randint(1, 3))]
             return {'c': c, 'op': kind, 'fault': fault, 'jump': jump, 'args': {
-                'path': path, 'species': species, 'as': rng.choice(['list', 'list', 'dict', 'tuple']),
+                'path': path, 'species': species, 'reuse': reuse, 'as': rng.choice(['list', 'list', 'dict', 'tuple']),
                 'write_date': rng.random() < 0.7, 'supp': supp, 'regen': rng.random() < 0.3,
                 'supp_txt': rng.choice([None, None, '! comment line', '! two\n! lines\n', '! Species APPENDED by J. ENDERS',
                                         '! LEGEND: THERMO data fitted 300-1500 K\n! END of notes']),
@@ -261,7 +276,11 @@ class WorldC05(World):
         return '\n'.join(lines) + '\n'
 
     def _call_write(self, a, filename):
-        objs = [self._mk(d) for d in a['species']]
+        if a.get('reuse') and self._live is not None:
+            objs = self._live
+        else:
+            objs = [self._mk(d) for d in a['species']]
+        self._objs_used = objs
         if a['as'] == 'dict':
             arg = {}
             for o in objs:
@@ -426,6 +445,24 @@ class WorldC05(World):
                 ctx.probe('clock-jump-before-write')
         else:
             self.clock.advance(3)
+        self._live = None
+        if name in ('write', 'write_text', 'write_enum') and a.get('reuse'):
+            if self.last is None:
+                raise Skip()
+            descs, objs = self.last
+            descs = [dict(d, a_low=list(d['a_low']), a_high=list(d['a_high'])) for d in descs]
+            for i, dh in a['reuse']:
+                if not 0 <= i < len(objs):
+                    raise Skip()
+            for i, dh in a['reuse']:
+                objs[i].a_low[5] += dh           # in place: same array objects as at the previous write
+                objs[i].a_high[5] += dh
+                descs[i]['a_low'][5] += dh
+                descs[i]['a_high'][5] += dh
+            a = dict(a, species=descs, supp=None)
+            op = dict(op, args=a)
+            self._live = objs
+            ctx.probe('rewrite-after-in-place-edit')
         if name in ('write', 'write_text', 'write_enum'):
             # keep replayed ops inside the quantifier
             if not a['species'] or any(len(set(d['name'] for d in part)) != len(part)
@@ -446,12 +483,17 @@ class WorldC05(World):
                     ctx.probe('comment-with-keyword')
             if not a['write_date']:
                 ctx.probe('no-date')
-        if name == 'write':
-            return self._op_write(a, op.get('fault'))
-        if name == 'write_text':
-            return self._op_write_text(a)
-        if name == 'write_enum':
-            return self._op_write_enum(a)
+        if name in ('write', 'write_text', 'write_enum'):
+            self._objs_used = None
+            try:
+                if name == 'write':
+                    return self._op_write(a, op.get('fault'))
+                if name == 'write_text':
+                    return self._op_write_text(a)
+                return self._op_write_enum(a)
+            finally:
+                if self._objs_used is not None:
+                    self.last = (a['species'], self._objs_used)
         if name == 'read':
             return self._op_read(a, op.get('fault'))
         raise Skip()
